@@ -488,12 +488,82 @@ def oracle(ctx):
     free_running_smoke(ctx)
     generator_raises(ctx)
     twin_histories(ctx)
+    mutator_schedules(ctx)
     for r in runs:
         if r["kind"] == "threads" and len(r["qs"]) >= 3:
             ctx.sample({"rule": r["rule"], "n": r["n"], "queries": [q_wire(tuple(q)) for q in r["qs"]],
                         "schedule": sched.seg_wire([tuple(s) for s in r["segs"]]), "answers": r["res"], "statuses": r["st"]}, cap=4)
     ctx.sample({"kind": "nexts", "n": 13, "ops": "n1,n0 x14,n1 x14 (the schedule that dead-locked before fix a459cd4)",
                 "out": run_nexts_case("daily", 13, 2, ["n1"] + ["n0"] * 14 + ["n1"] * 14)[1]})
+
+
+MUTATIONS = {
+    "rd": lambda s, R: s.rdate(rrlib.to_dt(-86400 * 30)),
+    "rr": lambda s, R: s.rrule(R.rrule(R.WEEKLY, count=4, dtstart=rrlib.to_dt(86400 * 100))),
+    "xd": lambda s, R: s.exdate(rrlib.to_dt(86400 * 4)),
+    "xr": lambda s, R: s.exrule(R.rrule(R.WEEKLY, count=3, dtstart=rrlib.to_dt(0))),
+}
+
+
+def run_mutator_case(mut, warm, n, rq, segs):
+    """a cached set of n daily instants (warm: nothing read / a partial read / completely read); thread 0 calls the mutator `mut`
+    (pre-empted at the statements of the decorated wrapper), thread 1 runs the query `rq`; schedule `segs`, then everybody to the end.
+    Returns (statuses, what the set answers AFTERWARDS to list / count / last, the same on an uncached set with the same final contents)"""
+    from dateutil import rrule as R
+
+    def build(cache):
+        s = R.rruleset(cache=cache)
+        s.rrule(rrlib.daily(n, False))
+        return s
+    s = build(True)
+    if warm == "partial":
+        s[0]
+    elif warm == "complete":
+        list(s)
+    sc = sched.Sched(s)
+    sc.add(lambda: MUTATIONS[mut](s, R))
+    sc.add(lambda: rrlib.impl_query(s, rq))
+    trace = []
+    for k, cnt in segs:
+        sc.run_seg(k, cnt, trace)
+    sc.finish_all(trace)
+    st = sc.statuses()
+    sc.kill()
+    s._cache_lock = sc.locks[list(sc.locks)[0]][1]          # the object's own lock back
+    ref = build(False)
+    MUTATIONS[mut](ref, R)
+    probes = [("all",), ("cnt",), ("idx", -1)]
+    return st, [rrlib.impl_query(s, q) for q in probes], [rrlib.impl_query(ref, q) for q in probes], ",".join(trace)
+
+
+def mutator_schedules(ctx):
+    """a MUTATOR thread against a reader on ONE cached set, at statement granularity: thread 0 executes rdate()/rrule()/exdate()/exrule()
+    and is pre-empted at the statements of the decorated wrapper (`_invalidates_cache.inner_func`: before the member is appended, between
+    the append and `_invalidate_cache()`, after it); thread 1 lists / counts / indexes the set meanwhile.  Whatever the reader saw, once both
+    calls have returned the cached set must answer like an uncached set with the same final contents (the invalidation comes AFTER the
+    append: a reader that fills the cache in between fills the cache of the generation that is then thrown away)."""
+    rng = ctx.subrng("mutator")
+    cases = []
+    for mut in sorted(MUTATIONS):
+        for warm in ("fresh", "partial", "complete"):
+            for k0 in (0, 1, 2, 3, 4):
+                for rq in (("all",), ("cnt",)):
+                    cases.append((mut, warm, 25, rq, [(0, k0), (1, None)]))
+    for _ in range(ctx.budget(40, 400)):
+        mut = rng.choice(sorted(MUTATIONS))
+        rq = rng.choice([("all",), ("cnt",), ("idx", -1), ("take", 12), ("btw", 0, 86400 * 9, True)])
+        segs = [(rng.randrange(2), rng.choice([1, 2, 3, 5, 9, 14, 30, 60])) for _ in range(rng.randint(1, 8))]
+        cases.append((mut, rng.choice(["fresh", "partial", "complete"]), rng.choice([9, 11, 25]), rq, segs))
+    for mut, warm, n, rq, segs in cases:
+        with hang_guard(60, "mutator %s against %s under schedule %s" % (mut, q_wire(rq), sched.seg_wire(segs))):
+            st, got, want, tr = run_mutator_case(mut, warm, n, rq, segs)
+        ctx.case(("mutator", mut, warm, n, rq, tuple(segs)), nontrivial=True)
+        ctx.count("mutator_thread_schedules")
+        if any(x != "done" for x in st) or got != want:
+            ctx.violation("cached set of %d daily instants (%s), thread 0 calls the mutator %s, thread 1 runs %s, schedule %s (trace %s): statuses %s; afterwards "
+                          "list / count / [-1] of the cached set %s, of an uncached set with the same contents %s"
+                          % (n, warm, mut, q_wire(rq), sched.seg_wire(segs), tr[:200], st, [g[:80] for g in got], [w[:80] for w in want]),
+                          {"kind": "mutator", "mut": mut, "warm": warm, "n": n, "rq": list(rq), "segs": [list(x) for x in segs]}, None)
 
 
 def twin_histories(ctx):
@@ -731,6 +801,11 @@ def replay(ctx, payload):
         print("replay nested: %d cached objects, %d distinct lock objects; schedule %s -> statuses %s answers %s"
               % (len(objs), nl, sched.seg_wire(segs), st, res))
         return all(x == "done" for x in st) and all(g == py_query(exp[o], q) for (o, q), g in zip(jobs, res))
+    if c.get("kind") == "mutator":
+        st, got, want, tr = run_mutator_case(c["mut"], c["warm"], c["n"], tuple(c["rq"]), [tuple(x) for x in c["segs"]])
+        print("replay mutator %s vs %s, schedule %s: trace %s statuses %s; afterwards cached %s uncached %s"
+              % (c["mut"], q_wire(tuple(c["rq"])), sched.seg_wire([tuple(x) for x in c["segs"]]), tr[:300], st, [g[:60] for g in got], [w[:60] for w in want]))
+        return all(x == "done" for x in st) and got == want
     if c.get("kind") == "twin":
         import props.c10 as c10
         ops = c10.parse_history(c["history"], c.get("members"), c.get("member_uses"))
